@@ -34,28 +34,30 @@ import (
 const ready = 4
 
 type runCase struct {
+	Seed  uint64   `json:"seed,omitempty"` // the seed the scenario variants were drawn from
 	Scen  string   `json:"scen"`
 	Fault fx.Fault `json:"fault"`
 	Obs   *fx.Obs  `json:"obs,omitempty"`
 }
 
 type driver struct {
-	res   *hx.Result
-	mat   *fx.TLSMaterial
-	cf    *hx.CaseFile
-	seen  map[[32]byte]bool
-	defs  []string
-	thor  bool
-	hangs int
+	res     *hx.Result
+	mat     *fx.TLSMaterial
+	cf      *hx.CaseFile
+	seen    map[[32]byte]bool
+	defs    []string
+	thor    bool
+	hangs   int
 	aborted bool
-	stats map[string]int
+	seed    uint64
+	stats   map[string]int
 }
 
 // base facts of a scenario, from its un-faulted run
 type baseInfo struct {
 	obs        fx.Obs
 	total      int   // bytes of the peer's stream the library consumes
-	lastHeader int   // model-level index of the last read that fetched a stream header
+	lastHeader int   // model-level index of the first Read of the last stream-header exchange (the Read Expect's ctx test guards)
 	writes     []int // raw indexes of the Writes
 }
 
@@ -97,7 +99,7 @@ func (d *driver) base(sc *fx.Scenario) baseInfo {
 }
 
 func sname(sc *fx.Scenario, what string) string {
-	return "s_" + strings.ReplaceAll(sc.Name, "-", "_") + "_" + what
+	return "s_" + strings.NewReplacer("-", "_", "~", "_").Replace(sc.Name) + "_" + what
 }
 
 func coqList(xs []string) string { return "[" + strings.Join(xs, "; ") + "]" }
@@ -150,7 +152,7 @@ func (d *driver) coqCase(sc *fx.Scenario, f fx.Fault, obs *fx.Obs) string {
 }
 
 func (d *driver) fail(sc *fx.Scenario, f fx.Fault, obs *fx.Obs, clause, what string) {
-	d.res.Fail("C04/"+sc.Entry+"/"+clause, fmt.Sprintf("%s [%s, fault %+v]: %s", sc.Entry, sc.Name, f, what), runCase{Scen: sc.Name, Fault: f, Obs: obs})
+	d.res.Fail("C04/"+sc.Entry+"/"+clause, fmt.Sprintf("%s [%s, fault %+v]: %s", sc.Entry, sc.Name, f, what), runCase{Seed: d.seed, Scen: sc.Name, Fault: f, Obs: obs})
 }
 
 // oracle states the property on what the run showed.
@@ -255,7 +257,7 @@ func (d *driver) one(sc *fx.Scenario, f fx.Fault, bi *baseInfo) fx.Obs {
 		h := sha256.Sum256([]byte(term))
 		if !d.seen[h] {
 			d.seen[h] = true
-			d.cf.Add(term, runCase{Scen: sc.Name, Fault: f})
+			d.cf.Add(term, runCase{Seed: d.seed, Scen: sc.Name, Fault: f})
 		}
 	}
 	return obs
@@ -326,7 +328,8 @@ func main() {
 	res := hx.NewResult("C04")
 	res.Rule = "a run is non-trivial when its fault was reached before the handshake completed (a connection operation failed, the peer's stream ended or fell silent, or the context was cancelled); distinct = distinct (scenario, fault plan)"
 	d := &driver{res: res, mat: fx.NewTLSMaterial(), seen: map[[32]byte]bool{}, thor: o.Thorough() || o.Search, stats: map[string]int{},
-		cf: &hx.CaseFile{Name: "c4", Imports: imports, Ok: "case_ok", Type: "case"}}
+		seed: o.Seed,
+		cf:   &hx.CaseFile{Name: "c4", Imports: imports, Ok: "case_ok", Type: "case"}}
 	scens := fx.Scenarios()
 	if w := os.Getenv("C04_WATCHDOG_MS"); w != "" {
 		var ms int
@@ -356,7 +359,27 @@ func main() {
 			fmt.Fprintln(os.Stderr, err)
 			os.Exit(2)
 		}
-		for _, sc := range scens {
+		if rp.Case.Seed != 0 {
+			d.seed = rp.Case.Seed
+		}
+		rnd := hx.NewRand(d.seed)
+		all := append([]*fx.Scenario{}, scens...)
+		for round := 0; round < 4; round++ {
+			for _, sc := range scens {
+				if sc.TLS || sc.NoReseg {
+					continue
+				}
+				v := *sc
+				v.Name = sc.Name + "~seg"
+				if round > 0 {
+					v.Name = fmt.Sprintf("%s~seg%d", sc.Name, round)
+				}
+				r := rnd.Fork()
+				v.Clear = fx.Resegment(sc.Clear, r.Intn)
+				all = append(all, &v)
+			}
+		}
+		for _, sc := range all {
 			if sc.Name == rp.Case.Scen {
 				bi := d.base(sc)
 				d.defs = append(d.defs,
@@ -369,7 +392,33 @@ func main() {
 			}
 		}
 	} else {
-		for _, sc := range scens {
+		// seeded part: every scripted scenario once more with its peer stream cut into
+		// smaller Reads at tag boundaries drawn from the seed
+		rnd := hx.NewRand(o.Seed)
+		var variants []*fx.Scenario
+		rounds := 1
+		if d.thor {
+			rounds = 4
+		}
+		for round := 0; round < rounds; round++ {
+			for _, sc := range scens {
+				if sc.TLS || sc.NoReseg {
+					continue
+				}
+				v := *sc
+				v.Name = sc.Name + "~seg"
+				if round > 0 {
+					v.Name = fmt.Sprintf("%s~seg%d", sc.Name, round)
+				}
+				r := rnd.Fork()
+				v.Clear = fx.Resegment(sc.Clear, r.Intn)
+				if len(v.Clear) == len(sc.Clear) {
+					continue // nothing was split
+				}
+				variants = append(variants, &v)
+			}
+		}
+		for _, sc := range append(scens, variants...) {
 			d.enumerate(sc)
 		}
 		for _, sc := range scens[:3] {
